@@ -3,6 +3,7 @@ import PatVerif.Proofs.EdGroup
 import PatVerif.Proofs.DoubleScalarMultRefine
 import PatVerif.Proofs.ScalarGlue
 import PatVerif.Proofs.BaseOrder
+import PatVerif.Proofs.EdEncode
 /-!
 # C14 / C15: the scalar multiplications of the Ed25519 fork, end to end
 
@@ -139,6 +140,21 @@ theorem honest_signature_passes (k S : List Nat) (hk : IsScalar k) (hS : IsScala
         (Generated.EdPoints.Point_Negate Model.ScalarMultLit.zP A) = some R ∧
       Proofs.EdRepr.ReprP3 R (r • Proofs.ScalarBaseMultRefine.basePoint) :=
   Proofs.BaseOrder.honest_signature_point k S hk hS A s r hA hSv
+
+/-- **the Go pipeline and the RFC 8032 reference write the same bytes**: for every scalar, every translated Go point `q` and reference point `e`
+standing for the same group element, `Point.bytes(ScalarMult(x, q))` over the translated code equals the reference's `(Point.mul x e).encode` -/
+theorem ScalarMult_bytes_agree_with_reference (s : List Nat) (hs : IsScalar s) (q : Generated.EdPoints.Point) (e : Exec.Ed25519.Point) (g : EdPoint)
+    (hq : Proofs.EdRepr.ReprP3 q g) (he : Proofs.EdRefGroup.ReprRef e g) (buf : List Nat) :
+    ∃ ds, signedRadix16 s = some ds ∧
+      Generated.EdPoints.Point_bytes (Model.ScalarMultLit.scalarMult ds q) buf
+        = ((Exec.Ed25519.Point.mul (leNat s) e).encode).map UInt8.toNat := by
+  obtain ⟨ds, e1, e2, _⟩ := Proofs.EdEncode.scalarMult_bytes_agree s hs q e g hq he buf
+  exact ⟨ds, e1, e2⟩
+
+/-- **unblinding inverts blinding** (C15) on multiples of the base point: `b·b' ≡ 1 (mod L)` gives `b' • (b • A) = A` -/
+theorem unblind_blind (b b' s : Int) (h : (b * b') % Proofs.ScHelp.L = 1) :
+    b' • (b • (s • Proofs.ScalarBaseMultRefine.basePoint)) = s • Proofs.ScalarBaseMultRefine.basePoint :=
+  Proofs.BaseOrder.unblind_blind_on_curve b b' s h
 
 /-- non-vacuity of the three: the decoded generator is a valid point standing for the base point -/
 example : Proofs.EdRepr.ReprP3 Model.ScalarMultLit.generator Proofs.ScalarBaseMultRefine.basePoint :=
